@@ -627,3 +627,45 @@ func referrersOf(v ssa.Value) []ssa.Instruction {
 	}
 	return *r
 }
+
+// EdgeFactSet returns the must-facts that hold when control flows from block
+// p into block b (facts at the start of p plus the branch condition).
+func (fi *FuncInfo) EdgeFactSet(p, b *ssa.BasicBlock) map[Fact]bool {
+	out := map[Fact]bool{}
+	for f := range fi.Facts()[p] {
+		out[f] = true
+	}
+	if len(p.Instrs) > 0 {
+		if ifi, ok := p.Instrs[len(p.Instrs)-1].(*ssa.If); ok && len(p.Succs) == 2 && p.Succs[0] != p.Succs[1] {
+			if p.Succs[0] == b {
+				out[normFact(ifi.Cond, true)] = true
+			} else if p.Succs[1] == b {
+				out[normFact(ifi.Cond, false)] = true
+			}
+		}
+	}
+	return out
+}
+
+// Returns lists the normal return instructions (the synthetic recover block,
+// which only re-reads the result cells after a recovered panic, is excluded).
+func (fi *FuncInfo) Returns() []*ssa.Return {
+	var out []*ssa.Return
+	for _, b := range fi.Fn.Blocks {
+		if b == fi.Fn.Recover {
+			continue
+		}
+		for _, in := range b.Instrs {
+			if r, ok := in.(*ssa.Return); ok {
+				out = append(out, r)
+			}
+		}
+	}
+	return out
+}
+
+// RetVal returns the i-th result of ret with defer-spilled result cells
+// resolved to the value stored last.
+func (fi *FuncInfo) RetVal(ret *ssa.Return, i int) ssa.Value {
+	return fi.resolveCell(ret.Results[i])
+}
